@@ -55,6 +55,8 @@ class C04(ParamsProp):
                         sub = r.choice(e[1]["m"])
                         sub[1] = "${%s}" % tops[r.below(tops.index(t))]
             yield {"op": "params", "layers": layers}
+            if i % 3 == 0:
+                yield {"op": "params", "layers": G.clone_point_diamond(Rng(seed, "C04d", i))}
 
     def nontrivial(self, req, impl, reply):
         return multi_ref_layers(req)
